@@ -403,7 +403,12 @@ impl Lowerer {
                         .into_iter()
                         .map(|row| {
                             let span = row.span;
-                            let mut fields = row.kind.into_tuple().unwrap();
+                            let Ok(mut fields) = row.kind.into_tuple() else {
+                                return Err(Error::new_simple(
+                                    "every row of a relation literal must be a tuple",
+                                )
+                                .with_span(span));
+                            };
 
                             // a row that names its fields gives them in any order:
                             // take them in the order of the relation's columns
